@@ -86,6 +86,11 @@ static void run_bundle(Rng &r)
     gen::Elem b = gen::gen_elem(r, (int)r.range(1, 3), true);
     if(b.kids.size() > (size_t)gen::MAX_BUNDLE_ELEMS) b.kids.resize(gen::MAX_BUNDLE_ELEMS);
     if(b.kids.size() > 8) { count("bundle.more_than_8_elements"); for(auto &k : b.kids) if(!k.is_bundle) { for(auto &v : k.msg.vals) if(v.blob.size() > 64) v.blob.resize(64); } }
+    // the guard-page buffer holds 128 KiB: several 70 KB blobs in one bundle do not fit, shorten them
+    {
+        std::function<void(gen::Elem &)> shrink = [&](gen::Elem &e) { if(e.is_bundle) for(auto &k : e.kids) shrink(k); else for(auto &v : e.msg.vals) if(v.blob.size() > 3000) v.blob.resize(3000); };
+        if(b.encode().size() + 64 > (1u << 17)) { shrink(b); count("bundle.blobs_shortened_to_fit_guard_buffer"); }
+    }
     std::string desc = b.render();
     if(desc.size() > 1500) desc.resize(1500);
     describe_case(desc);
